@@ -34,7 +34,7 @@ MANIFEST = {
 EXPLANATION = MANIFEST["level_text"]
 TRUSTED = [
     "pyvc VC generator, slicer (pyvc/slicing.py: statements outside the backward slice dropped, normal completion) and its encoding of Python ints/str/dicts",
-    "z3 5.1.0 / cvc5 1.0.3 (str.from_int / str.to_int)",
+    "z3 5.1.0 / cvc5 1.4.0 (str.from_int / str.to_int)",
     "falcon: every response passes through process_response of every middleware (also for HTTPError, 404 sinks, OPTIONS/HEAD); resp.set_header(name, value) emits exactly that header; header names are case-insensitive on the wire",
     "_options_with_retry(client, url) returns the server's response to OPTIONS url (external; retry behaviour is C38)",
     "decimal notation: str(n) of an int n >= 0 consists of ASCII digits only (neither solver decides str.from_int(n) in [0-9]+; non-emptiness and int(str(n)) == n are proved by unit L3.lemma)",
